@@ -449,10 +449,65 @@ fn huge_sources(found: &mut Vec<(String, String, Value)>, notes: &mut Vec<String
             }
         }
     }
+    // (c) more members than an f32 mantissa or a 24-bit index resolves: 2^24 + 2^23 one-byte members of
+    // value (index mod 251); the grid of n cells gives every member exactly one cell, so the value law is
+    // count(value)/n exactly
+    {
+        let n: usize = (1 << 24) + (1 << 23);
+        let v: Vec<u8> = (0..n).map(|i| (i % 251) as u8).collect();
+        let mut want_counts = vec![0u64; 251];
+        for x in &v {
+            want_counts[*x as usize] += 1;
+        }
+        n_runs += 2 * n as u64;
+        let outs = mcx::par_map(2, |fi| {
+            let flavour = [2usize, 0][fi];
+            let mut out: Option<(String, String, Value)> = None;
+            let mut counts = vec![0u64; 251];
+            let mut first_idx_parity = [0u64; 2];
+            let mut problem: Option<String> = None;
+            let owned: Option<Result<OneOfCloning<Vec<u8>, u8>, ()>> = if flavour == 0 { Some(IntoDistribution::<u8>::into_distribution(v.clone()).map_err(|_| ())) } else { None };
+            let st = explore(
+                |env| {
+                    let mut rng = ChoiceRng::new(env, Alphabet::Grid(n as u32));
+                    let r = mcx::guarded(|| match flavour {
+                        2 => IntoDistribution::<u8>::into_distribution(&v).map(|d| d.sample(&mut rng)).map_err(|_| ()),
+                        _ => match owned.as_ref().unwrap() {
+                            Ok(d) => Ok(d.sample(&mut rng)),
+                            Err(()) => Err(()),
+                        },
+                    });
+                    drop(rng);
+                    (r, env.draws())
+                },
+                |t, _, (r, draws)| match r {
+                    Ok(Ok(b)) if draws == 1 => {
+                        counts[b as usize] += 1;
+                        first_idx_parity[(t[0].pick % 2) as usize] += 1;
+                    }
+                    Ok(Ok(_)) => problem = Some(format!("{draws} draws for one sample")),
+                    Ok(Err(())) => problem = Some("construction was rejected".into()),
+                    Err(p) => problem = Some(format!("panicked: {p}")),
+                },
+                n as u64 + 10,
+            );
+            let label = format!("{} on {n} one-byte members of value (index mod 251)", FLAVOURS[flavour]);
+            if let Some(p) = problem {
+                out = Some((format!("choice/{flavour}/huge/result"), format!("{label}: {p}"), json!({"check":"C18","scenario":"huge","flavour":flavour,"n":n.to_string()})));
+            } else if !st.capped && st.leaves == n as u64 && counts != want_counts {
+                let worst = (0..251).max_by_key(|i| (counts[*i] as i64 - want_counts[*i] as i64).abs()).unwrap();
+                out = Some((format!("choice/{flavour}/huge/law"), format!("{label}: over the {n} cells of the grid (one per member) value {worst} is returned {} times, it has {} members; {} values deviate", counts[worst], want_counts[worst], (0..251).filter(|i| counts[*i] != want_counts[*i]).count()), json!({"check":"C18","scenario":"huge","flavour":flavour,"n":n.to_string()})));
+            }
+            out
+        });
+        for (k, w, r) in outs.into_iter().flatten() {
+            report(k, w, r);
+        }
+    }
     n_runs
 }
 fn huge_bound() -> Value {
-    json!("zero-sized members: 2^32-1, 2^32, 2^32+1, 2^32+2, 2^33, 3*2^32, usize::MAX (construction, member count, one sample); one-byte members: 2^32 and 2^32+2 (exact value law 1/2, 1/2 on the grid of two cells); owning, borrowing and cloning flavours")
+    json!("zero-sized members: 2^32-1, 2^32, 2^32+1, 2^32+2, 2^33, 3*2^32, usize::MAX (construction, member count, one sample); one-byte members: 2^32 and 2^32+2 (exact value law 1/2, 1/2 on the grid of two cells); 2^24 + 2^23 one-byte members on the grid of as many cells (exact value law, owning and cloning flavours); owning, borrowing and cloning flavours")
 }
 
 /// collection generators: exactly `size` elements, element i is the i-th product
